@@ -644,6 +644,7 @@ class Explorer:
         self.exhausted = False
         self.inconclusive = None
         self.fuel = None
+        self.prefer = {}          # z3 ast id of a Bool constant -> outcome to explore first
 
     # -- solver helpers
     def _check(self, *extra):
@@ -734,7 +735,20 @@ class Explorer:
                     self.model = self._model()
         other = z3.Not(cond) if mv else cond
         if self._check(other):
-            entry = [mv, True, self._model(), payload]
+            pref = self.prefer.get(cond.get_id()) if self.prefer else None
+            if pref is not None and pref != mv:
+                # both sides are feasible and the model marked one outcome as the interesting one: take it first
+                # (the search order changes, not the set of explored paths)
+                m_other = self._model()
+                m_this = self.model
+                if m_this is None or self._holds_in_model(cond if mv else z3.Not(cond)) is not True:
+                    self._check(cond if mv else z3.Not(cond))
+                    m_this = self._model()
+                entry = [pref, True, m_this, payload]
+                self.model = m_other
+                mv = pref
+            else:
+                entry = [mv, True, self._model(), payload]
         else:
             entry = [mv, False, None, payload]
         self.stack.append(entry)
@@ -785,10 +799,12 @@ class Explorer:
             BOUNDS[nm] = (lo, hi)
         return x
 
-    def fresh_bool(self, name):
+    def fresh_bool(self, name, prefer=None):
         nm = self._uniq(name)
         v = z3.Bool(nm)
         self.named.append((nm, v))
+        if prefer is not None:
+            self.prefer[v.get_id()] = prefer
         return SBool(v)
 
     def fresh_bv(self, name, bits):
